@@ -88,6 +88,9 @@ void fiber_scheduler_schedule(fiber_scheduler_t* scheduler,
                               fiber_t* the_fiber) {
   assert(scheduler);
   assert(the_fiber);
+#ifdef LIBFIBER_VERIF
+  verif_event(1, scheduler, the_fiber);
+#endif
   wsd_work_stealing_deque_push_bottom(
       ((fiber_scheduler_wsd_t*)scheduler)->store_to, the_fiber);
 }
@@ -108,6 +111,9 @@ fiber_t* fiber_scheduler_next(fiber_scheduler_t* sched) {
       if (new_fiber->state == FIBER_STATE_SAVING_STATE_TO_WAIT) {
         wsd_work_stealing_deque_push_bottom(scheduler->store_to, new_fiber);
       } else {
+#ifdef LIBFIBER_VERIF
+        verif_event(2, scheduler, new_fiber);
+#endif
         return new_fiber;
       }
     }
@@ -139,6 +145,9 @@ void fiber_scheduler_load_balance(fiber_scheduler_t* sched) {
         ++scheduler->failed_steal_count;
         break;
       }
+#ifdef LIBFIBER_VERIF
+      verif_event(3, scheduler, stolen);
+#endif
       wsd_work_stealing_deque_push_bottom(scheduler->schedule_from, stolen);
       --remote_count;
       ++local_count;
